@@ -12,9 +12,26 @@ def _unesc(s):
     return (s.replace("\\n", "\n").replace('\\"', '"').replace("\\\\", "\\"))
 
 
+class LazyStates(dict):
+    """id -> parsed state; parses the TLC text on first access"""
+
+    def __getitem__(self, k):
+        v = dict.__getitem__(self, k)
+        if isinstance(v, str):
+            v = tlaval.parse_state(v)
+            dict.__setitem__(self, k, v)
+        return v
+
+    def values(self):
+        return (self[k] for k in list(self.keys()))
+
+    def items(self):
+        return ((k, self[k]) for k in list(self.keys()))
+
+
 class Graph:
     def __init__(self):
-        self.states = {}     # id -> dict
+        self.states = LazyStates()     # id -> dict
         self.init = []       # ids
         self.edges = []      # (src, action, args, dst)
         self.out = {}
@@ -36,7 +53,7 @@ class Graph:
                     sid = m.group(1)
                     if sid not in g.states:
                         txt = _unesc(m.group(2))
-                        g.states[sid] = tlaval.parse_state(txt) if parse_states else txt
+                        dict.__setitem__(g.states, sid, txt)
                     if m.group(3):
                         if sid not in g.init:
                             g.init.append(sid)
